@@ -330,6 +330,8 @@ func (fc *FnCtx) zeroValue(st *State, t types.Type) Val {
 		return T(SBytes, "nilBytes")
 	case SSlice:
 		return nilSlice
+	case SKey:
+		return T(SKey, "emptyKey")
 	}
 	if _, ok := t.Underlying().(*types.Array); ok {
 		a := t.Underlying().(*types.Array)
@@ -364,7 +366,7 @@ func (fc *FnCtx) nestedFact(st *State, inner, owner Term, heap string) {
 
 func isNestedStructField(ft types.Type) (*types.Named, bool) {
 	ft = unalias(ft)
-	if namedPath(ft) == "time.Time" {
+	if isOpaqueValueStruct(ft) {
 		return nil, false
 	}
 	n, ok := ft.(*types.Named)
